@@ -15,13 +15,14 @@ EXTENDS IncSession, TLC, Json
 
 CONSTANTS MaxCalls,     \* length of the histories
           MaxArgs,      \* filters per call (positional + keywords)
-          FreeCalls,    \* the first FreeCalls calls of a history are arbitrary, the later ones take <= 1 filter ("probes")
+          FreeCalls,    \* the first FreeCalls calls of a history are arbitrary, the later ones take <= 1 positional filter ("probes")
           Scope,        \* "quick" | "thorough": which tables and pools
           Adopt         \* mechanism variant, see IncSession.tla
 
-VARIABLES t, pool, pool0, last, hist
-vars == <<t, pool, pool0, last, hist>>
-View == <<t, pool, pool0, last>>
+VARIABLES t, pool, pool0, last, opd, hist
+\* opd = the table the last call was made on ACCORDING TO THE LAW (t itself, or what the law says the call before returned)
+vars == <<t, pool, pool0, last, opd, hist>>
+View == <<t, pool, pool0, last, opd>>
 
 Cols2 == <<"a", "b">>
 \* every combination of the a-values with the b-values, one row each: each row tells two filters apart
@@ -64,52 +65,71 @@ PoolSet  == IF Scope = "quick" THEN PoolsQuick ELSE PoolsThorough
 Slots == 1..3
 PosU  == UNION {[1..k -> Slots] : k \in 0..MaxArgs}
 Forms == {f \in [pos : PosU, kw : 0..3] : NArgs(f) <= MaxArgs}
-MkCall(op, col, f, x) == [op |-> op, col |-> col, pos |-> f.pos, kw |-> f.kw, x |-> x]
-NoCall == [op |-> "", col |-> "", pos |-> <<>>, kw |-> 0, x |-> 0]
-Probe(c) == NArgs(c) <= 1 /\ c.x = 0
+MkCall(op, col, f, x, on) == [op |-> op, col |-> col, pos |-> f.pos, kw |-> f.kw, x |-> x, on |-> on]
+NoCall == [op |-> "", col |-> "", pos |-> <<>>, kw |-> 0, x |-> 0, on |-> "t"]
+Probe(c) == Len(c.pos) <= 1 /\ c.kw = 0 /\ c.x = 0 /\ c.on = "t"     \* t.inc(q), t.exc(f), t.find_a(q), t.one_or_none(q), t.inc()
+\* the previous call repeated (or complemented) on its own result with the very same arguments: r = t.inc(q1, q2); r.inc(q1, q2)
+Echo(c) == c.on = "last" /\ c.op \in {"inc", "exc"} /\ c.pos = last.call.pos /\ c.kw = last.call.kw
+
+Called == last.call.op # ""
+\* a call can be made on the previous result when the law says that result is one definite table
+LawLast == Outcomes(opd, pool0, last.call)
+Chainable == Called /\ Cardinality(LawLast) = 1 /\ \A o \in LawLast : o.kind = "table"
 
 Init == /\ t \in TableSet /\ pool0 \in PoolSet /\ pool = pool0
-        /\ last = [call |-> NoCall, out |-> [kind |-> "none"]] /\ hist = <<>>
+        /\ last = [call |-> NoCall, out |-> [kind |-> "none"], echo |-> ""] /\ opd = t /\ hist = <<>>
 
 Do(c) == /\ Len(hist) < MaxCalls
+         /\ Len(hist) >= FreeCalls => (Probe(c) \/ Echo(c))
+         /\ c.on = "last" => Chainable
          /\ InDomain(t, pool0, c)
-         /\ Len(hist) >= FreeCalls => Probe(c)
-         /\ LET m == MechCall(t, pool, c, Adopt) IN pool' = m.pool /\ last' = [call |-> c, out |-> m.out]
+         /\ LET lawopd  == IF c.on = "t" THEN t ELSE TableOf(CHOOSE o \in LawLast : TRUE, t.cols)
+                 mechopd == IF c.on = "t" THEN t ELSE TableOf(last.out, t.cols)         \* the object the code really returned
+                 m == MechCall(mechopd, pool, c, Adopt)
+            IN  pool' = m.pool /\ opd' = lawopd
+                /\ last' = [call |-> c, out |-> m.out, echo |-> IF Echo(c) THEN last.call.op ELSE ""]
          /\ hist' = Append(hist, c)
          /\ UNCHANGED <<t, pool0>>
 
-CallInc  == \E f \in Forms : Do(MkCall("inc", "", f, 0))
-CallExc  == \E f \in Forms : Do(MkCall("exc", "", f, 0))
-CallFind == \E f \in Forms, cl \in {"a", "b"} : Do(MkCall("find", cl, f, 0))
-CallOne  == \E f \in Forms, x \in 0..3 : (x # 0 => f.kw = 0 /\ NArgs(f) < MaxArgs) /\ Do(MkCall("one", "", f, x))
+Ons == {"t", "last"}
+CallInc  == \E f \in Forms, on \in Ons : Do(MkCall("inc", "", f, 0, on))
+CallExc  == \E f \in Forms, on \in Ons : Do(MkCall("exc", "", f, 0, on))
+CallFind == \E f \in Forms, on \in Ons, cl \in {"a", "b"} : Do(MkCall("find", cl, f, 0, on))
+CallOne  == \E f \in Forms, on \in Ons, x \in 0..3 : (x # 0 => f.kw = 0 /\ NArgs(f) < MaxArgs) /\ Do(MkCall("one", "", f, x, on))
 Next == CallInc \/ CallExc \/ CallFind \/ CallOne
 
 \* ---- what the statement says, clause by clause -----------------------------------------------
-Called == last.call.op # ""
 LastCond == CondOf(pool0, last.call)
 PoolUntouched    == pool = pool0
-ResultByOriginal == Called => last.out \in Outcomes(t, pool0, last.call)
+ResultByOriginal == Called => last.out \in Outcomes(opd, pool0, last.call)
 ArgumentsLeftAlone == [][pool' = pool /\ t' = t]_vars
 \* the result depends on the condition only, not on its spelling: every other in-domain spelling of the same
 \* condition, run by the mechanism on the original pool, lands in the same set of allowed outcomes
 SpellingIrrelevant ==
     Called => \A f \in Forms :
-        LET c2 == MkCall(last.call.op, last.call.col, f, last.call.x) IN
-        (InDomain(t, pool0, c2) /\ CondOf(pool0, c2) = LastCond) => MechCall(t, pool0, c2, FALSE).out \in Outcomes(t, pool0, last.call)
+        LET c2 == MkCall(last.call.op, last.call.col, f, last.call.x, last.call.on) IN
+        (InDomain(opd, pool0, c2) /\ CondOf(pool0, c2) = LastCond) => MechCall(opd, pool0, c2, FALSE).out \in Outcomes(opd, pool0, last.call)
 RECURSIVE Weave(_, _, _, _)
 Weave(rows, xs, ys, cd) ==
     IF rows = <<>> THEN xs = <<>> /\ ys = <<>>
     ELSE IF SatC(Head(rows), cd) THEN xs # <<>> /\ Head(xs) = Head(rows) /\ Weave(Tail(rows), Tail(xs), ys, cd)
          ELSE ys # <<>> /\ Head(ys) = Head(rows) /\ Weave(Tail(rows), xs, Tail(ys), cd)
-SessPartition  == (Called /\ ~NoCondC(LastCond)) => Weave(t.rows, IncC(t, LastCond).rows, ExcC(t, LastCond).rows, LastCond)
-SessIdempotent == Called => /\ IncC(IncC(t, LastCond), LastCond) = IncC(t, LastCond)
-                            /\ ~NoCondC(LastCond) => NRows(ExcC(IncC(t, LastCond), LastCond)) = 0
+SessPartition  == (Called /\ ~NoCondC(LastCond)) => Weave(opd.rows, IncC(opd, LastCond).rows, ExcC(opd, LastCond).rows, LastCond)
+SessIdempotent == Called => /\ IncC(IncC(opd, LastCond), LastCond) = IncC(opd, LastCond)
+                            /\ ~NoCondC(LastCond) => NRows(ExcC(IncC(opd, LastCond), LastCond)) = 0
 SessKeepsCols  == (Called /\ last.out.kind = "table") => last.out.cols = t.cols /\ Rectangular(last.out)
-NoCondIsIdentity == (Called /\ last.call.op = "inc" /\ NoCondC(LastCond)) => last.out = TabOut(t)
+NoCondIsIdentity == (Called /\ last.call.op = "inc" /\ NoCondC(LastCond)) => last.out = TabOut(opd)
+\* idempotence as a history: the same call again on its own result returns that result, the complementary call nothing
+\* (last.echo = the operation whose result this call was repeated on, with the very same arguments)
+EchoLaw == (Called /\ last.echo # "" /\ ~MixedC(LastCond)) =>
+               IF last.call.op = last.echo \/ NoCondC(LastCond) THEN last.out = TabOut(opd) ELSE last.out.rows = <<>>
 
 \* ---- S2C: the histories, with what the law allows at every call and the pool the caller still owns ----
+RECURSIVE LawOpd(_)
+LawOpd(k) == IF hist[k].on = "t" THEN t ELSE TableOf(CHOOSE o \in Outcomes(LawOpd(k - 1), pool0, hist[k - 1]) : TRUE, t.cols)
 Emit == PrintT(ToJson([t |-> t, pool |-> pool0, snap |-> Canon(pool, t.cols),
-                       hist |-> [k \in 1..Len(hist) |-> [call |-> hist[k], want |-> SetToSeq(Outcomes(t, pool0, hist[k]))]]]))
+                       hist |-> [k \in 1..Len(hist) |-> [call |-> hist[k], opd |-> IF hist[k].on = "t" THEN [kind |-> "t"] ELSE TabOut(LawOpd(k)),
+                                                         want |-> SetToSeq(Outcomes(LawOpd(k), pool0, hist[k]))]]]))
 \* tables of <= 1 row only get single calls (the extremes); the histories run on the tables that tell filters apart
 Depth(tt) == IF NRows(tt) <= 1 THEN 1 ELSE MaxCalls
 GenBound == /\ Len(hist) <= Depth(t)
